@@ -1718,8 +1718,28 @@ impl Reporter {
     }
 }
 
-/// defects of the unchanged library that this scenario found and that are reported under a stable signature
-/// (`co` is the minimised case: every call in it is needed for the failure)
+/// Defects of the unchanged library that this scenario found; they are reported under a stable signature
+/// (`co` is the minimised case: every call in it is needed for the failure).
+///
+/// * `c07:copy-move-keeps-element-type-of-source-parent`: create_copied_sub_element / move_element_here only check that
+///   the element NAME may be inserted; an element of the same name taken from a parent where that name has another type
+///   keeps its type and content (e.g. CATEGORY with another pattern, a DEST enum of another reference, sub-elements
+///   below what is a character element here).  Needs a type mismatch between recorded and specified type.
+/// * `c07:copy-across-versions-keeps-element-type-of-source-version` / `...-arrangement-of-source-version`: deep_copy
+///   filters by existence in the destination version only; type, order and multiplicity follow the source version.
+/// * `c07:copy-from-version-where-element-has-no-short-name`: the copy of an element that is unnamed in the source
+///   version but identifiable in the destination version has no SHORT-NAME.
+/// * `c07:move-within-parent-position-is-insert-index`: move_element_here_at inside the same parent treats the
+///   position as final index although the range was computed as insertion index (element lands behind its successor).
+/// * `c07:sort-uses-all-version-order`: sort() orders by find_sub_element(name, u32::MAX) instead of the file version.
+/// * `c07:set-character-data-on-named-mixed-element-drops-short-name`: set_character_data on an identifiable element
+///   with mixed content replaces all content including the SHORT-NAME.
+/// * `c12:move-at-of-child-dropped-by-set-character-data-panics`: such dropped children keep their parent link;
+///   move_element_here_at with one of them unwraps a failed position lookup (only generated in `lax` cases).
+/// * `c17:attribute-unknown-to-target-element-type-not-reported`: an attribute that the element type used in the
+///   target version does not have at all is skipped by the check (strict load: unknown attribute).
+/// * `c17:short-name-required-only-in-target-version-not-reported`: element identifiable only in the target version.
+/// * `c17:value-not-checked-against-pattern-of-target-element-type`: only enum values are re-validated.
 fn classify(co: &CaseOut, f: &Fail) -> Option<&'static str> {
     let structural = matches!(f.key.as_str(), "order" | "not-permitted" | "value" | "attr" | "attr-value" | "reload-error" | "reload-warning" | "reload-diff")
         || (f.key == "panic" && f.detail.contains("index out of bounds") && co.log.iter().any(|l| l.starts_with("c17 ")));
@@ -1734,8 +1754,16 @@ fn classify(co: &CaseOut, f: &Fail) -> Option<&'static str> {
         return Some("c07:copy-from-version-where-element-has-no-short-name");
     }
     for (i, op) in co.ops.iter().enumerate() {
-        if matches!(op, Op::Copy(Site::Donor, ..)) && structural && ok_line(i) && f.mismatch {
-            return Some("c07:copy-across-versions-keeps-element-type-of-source-version");
+        if matches!(op, Op::Copy(Site::Donor, ..)) && structural && ok_line(i) {
+            if f.mismatch {
+                return Some("c07:copy-across-versions-keeps-element-type-of-source-version");
+            }
+            // same element type, but its sub-element names select other entries (order, multiplicity, group) in the
+            // destination version; the violation lies inside the copied subtree, not in the parent under test
+            let inside_copy = f.detail.split(':').next().is_some_and(|p| p.matches('/').count() >= 2);
+            if f.key == "order" && inside_copy {
+                return Some("c07:copy-across-versions-keeps-arrangement-of-source-version");
+            }
         }
     }
     if f.key == "reload-warning" && f.detail.contains("required sub element SHORT-NAME was not found") && co.ops.iter().any(|o| matches!(o, Op::SetData(..))) {
